@@ -671,8 +671,35 @@ func runCLI(w *out.W, tier string) {
 			cliCase{cbefore, cdesired[5], []string{"main.id"}, nil})
 	}
 	w.Set("coincide_cases", len(cases)-nBase)
+	// ---- names that only a real glob tells apart (round 4, globonly.go): a LIKE / case-folding / prefix matcher in the
+	// inspection hides users under 'user_*', logs under 'log_*', Audit under 'audit', aXb under 'a_b'
+	nBase2 := len(cases)
+	{
+		one := func(n string) cTab { return cTab{n, [][2]string{{"id", "integer"}}, "", nil} }
+		tu := cTab{"users", [][2]string{{"id", "integer"}, {"user_id", "integer"}, {"Name", "text"}}, "id", []cIdx{{"idx_a", "user_id"}, {"idxXa", "Name"}}}
+		tus := cTab{"user_sessions", [][2]string{{"id", "integer"}, {"users", "integer"}}, "", nil}
+		gbefore := cState{tu, tus, one("logs"), one("log_1"), one("Audit"), one("a%b"), one("a_b"), one("aXb")}
+		addc := func(t cTab) cTab {
+			return mod(t, func(t *cTab) { t.cols = append(t.cols, [2]string{"c9", "integer"}) })
+		}
+		gdesired := []cState{
+			gbefore, // nothing to do
+			{addc(tu), tus, addc(one("logs")), one("log_1"), addc(one("Audit")), one("a%b"), one("a_b"), addc(one("aXb"))},                       // add a column to users, logs, Audit, aXb
+			{mod(tu, func(t *cTab) { t.idx = nil }), tus, one("log_1"), one("Audit"), one("a%b"), one("a_b"), one("t9")}, // drop logs and aXb, drop both indexes of users, add t9
+		}
+		gpats := [][]string{
+			{"user_*"}, {"log_*"}, {"log?"}, {"audit"}, {"AUDIT"}, {"Audit"}, {"user?"}, {"USERS"}, {"a_b"}, {"a?b"}, {"a%b"}, {"%"}, {"*_*"},
+			{"users.user_id"}, {"users.USER_ID"}, {"users.name"}, {"users.Name"}, {"users.idx_a"}, {"users.idx?a"}, {"USERS.*"}, {"user_*", "log_*"},
+		}
+		for _, d := range gdesired {
+			for _, p := range gpats {
+				cases = append(cases, cliCase{gbefore, d, p, nil})
+			}
+		}
+	}
+	w.Set("glob_only_cases", len(cases)-nBase2)
 	w.Exhaust = true
-	w.Set("exhaustive_bound", "8 desired states x (21 exclude lists + 12 skip sets) on one SQLite database (3 tables, indexes); 6 desired states x 23 exclude lists on a database whose tables are called main, secret, t1 (columns main, secret; an index named like a column); real CLI")
+	w.Set("exhaustive_bound", "8 desired states x (21 exclude lists + 12 skip sets) on one SQLite database (3 tables, indexes); 6 desired states x 23 exclude lists on a database whose tables are called main, secret, t1 (columns main, secret; an index named like a column); 3 desired states x 21 exclude lists on a database with tables users, user_sessions, logs, log_1, Audit, a%b, a_b, aXb (glob vs LIKE / case folding); real CLI")
 	if tier == "thorough" {
 		r := rng.FromEnv(0xC11)
 		for i := 0; i < 1500; i++ {
